@@ -289,7 +289,8 @@ PLANS["C07"] = [("lock", ["typed1", "unsafe2", "typed11"]), ("drive:lock", ["typ
                 ("cursor", []), ("suite", []), ("lockind", [])]
 PROP_CFG["C07"] = (dict(probes=2, misuse=8), dict(probes=4, misuse=-1))
 PLANS["C10"] = [("core", ["typed1", "unsafe1", "exch8", "mapt1"]), ("rel", ["typed1", "unsafe1", "typed11", "mapt1"]),
-                ("drive:rel2", ["typed11", "unsafe1", "mapt42"]), ("drive:wide", ["typed1", "unsafe2", "exch8"]), ("suite", [])]
+                ("drive:rel2", ["typed11", "unsafe1", "mapt42"]), ("drive:wide", ["typed1", "unsafe2", "exch8"]),
+                ("drive:lock", ["typed1", "unsafe2"]), ("drive:reset2", ["typed11", "unsafe1"]), ("suite", [])]
 
 
 # ------------------------------------------------------------------------------------------
